@@ -285,6 +285,7 @@ fn plan_inner(prop: &str, tier: &str) -> Option<Plan> {
                     jobs.extend(sharded(prop, "csweep", f, tier, json!({"n": n, "max_l": l}), *sh));
                 }
                 jobs.extend(sharded(prop, "csweep", f, tier, json!({"n": 0, "max_l": 0, "large": if tier == "quick" { 20 } else { 40 }}), 8));
+                jobs.extend(sharded(prop, "csweep", f, tier, json!({"n": 0, "max_l": 0, "hubs": if tier == "quick" { 72 } else { 120 }}), 4));
                 // the same container used again after edges changed through the node handles
                 let mb: Vec<(usize, usize, usize)> = if tier == "quick" { vec![(2, 3, 1), (3, 3, 8)] } else { vec![(2, 4, 2), (3, 4, 16), (4, 3, 16)] };
                 for (n, l, sh) in mb {
